@@ -22,6 +22,9 @@ pub enum BOp {
     Find(i64, i64, i64, i64),
     Reverse(i64, i64, i64),
     Swap(i64, i64, i64),
+    /// fs.close / net.close applied to a handle of the resource table
+    FsClose(i64),
+    NetClose(i64),
     /// a call with an operand of the wrong type (source text kept verbatim)
     NonInt(String),
 }
@@ -53,6 +56,8 @@ fn src(op: &BOp) -> String {
         BOp::Find(h, a, b, n) => format!("bytes.find({}, {}, {}, {})", h, a, b, n),
         BOp::Reverse(h, o, l) => format!("bytes.reverse({}, {}, {})", h, o, l),
         BOp::Swap(h, i, j) => format!("bytes.swap({}, {}, {})", h, i, j),
+        BOp::FsClose(h) => format!("fsys.close({})", h),
+        BOp::NetClose(h) => format!("netw.close({})", h),
         BOp::NonInt(t) => t.clone(),
     }
 }
@@ -80,6 +85,8 @@ fn coq(op: &BOp) -> String {
         BOp::Find(h, a, bb, n) => format!("BFind {} {} {} {}", z(*h), z(*a), z(*bb), z(*n)),
         BOp::Reverse(h, o, l) => format!("BReverse {} {} {}", z(*h), z(*o), z(*l)),
         BOp::Swap(h, i, j) => format!("BSwap {} {} {}", z(*h), z(*i), z(*j)),
+        BOp::FsClose(h) => format!("BFsClose {}", z(*h)),
+        BOp::NetClose(h) => format!("BNetClose {}", z(*h)),
         BOp::NonInt(_) => "BNonInt".into(),
     }
 }
@@ -182,6 +189,10 @@ fn ref_step(r: &mut RefB, op: &BOp) -> Want {
         BOp::Swap(h, i, j) => match r.live.get_mut(h) {
             Some(d) if *i >= 0 && *j >= 0 && (*i as usize) < d.len() && (*j as usize) < d.len() => { d.swap(*i as usize, *j as usize); Want::Unit }
             _ => Want::Err },
+        // closing a byte buffer as a file must be refused; net.close is documented as a no-op for non-sockets.
+        // Either way the whole-state comparison below demands that every buffer is still there.
+        BOp::FsClose(_) => Want::Err,
+        BOp::NetClose(_) => Want::Any,
         BOp::NonInt(_) => Want::Err,
     }
 }
@@ -190,7 +201,7 @@ fn op_kind(op: &BOp) -> &'static str {
     match op { BOp::Alloc(_) => "alloc", BOp::Free(_) => "free", BOp::Size(_) => "size", BOp::Resize(..) => "resize", BOp::Read { .. } => "read",
                BOp::Write { .. } => "write", BOp::WriteF { .. } => "write_f", BOp::Copy(..) => "copy", BOp::Fill(..) => "fill",
                BOp::Clone(_) => "clone", BOp::Equals(..) => "equals", BOp::FromString(_) => "from_string", BOp::Decode(..) => "decode",
-               BOp::WriteString(..) => "write_string", BOp::Find(..) => "find", BOp::Reverse(..) => "reverse", BOp::Swap(..) => "swap", BOp::NonInt(_) => "non-int-operand" }
+               BOp::WriteString(..) => "write_string", BOp::Find(..) => "find", BOp::Reverse(..) => "reverse", BOp::Swap(..) => "swap", BOp::FsClose(_) => "fs_close", BOp::NetClose(_) => "net_close", BOp::NonInt(_) => "non-int-operand" }
 }
 
 
@@ -209,7 +220,8 @@ fn parse_bops(text: &str) -> Vec<BOp> {
 
 fn parse_one(t: &str) -> BOp {
     {
-        let t = t.strip_prefix("bytes.").unwrap_or(t);
+        if let Some(r) = t.strip_prefix("netw.close(") { return BOp::NetClose(r.trim_end_matches(')').trim().parse().expect("int")); }
+        let t = t.strip_prefix("bytes.").or_else(|| t.strip_prefix("fsys.")).unwrap_or(t);
         let open = t.find('(').expect("(");
         let name = &t[..open];
         let args: Vec<&str> = t[open + 1..t.rfind(')').expect(")")].split(',').map(|a| a.trim()).collect();
@@ -229,6 +241,7 @@ fn parse_one(t: &str) -> BOp {
             "find" => BOp::Find(i(0), i(1), i(2), i(3)),
             "reverse" => BOp::Reverse(i(0), i(1), i(2)),
             "swap" => BOp::Swap(i(0), i(1), i(2)),
+            "close" => BOp::FsClose(i(0)),
             _ => {
                 let (rw, rest) = name.split_once('_').expect("accessor name");
                 let be = rest.ends_with("_be");
@@ -261,6 +274,10 @@ fn gen_bop(rng: &mut Rng, r: &RefB, f32ok: bool, dist: &mut Dist) -> BOp {
         if live.is_empty() || (live.len() < 5 && rng.chance(1, 6)) { dist.hit("valid:alloc"); return BOp::Alloc(rng.range_i64(1, 24)); }
         let h = *rng.pick(&live);
         let len = r.live[&h].len() as i64;
+        if rng.chance(1, 25) {
+            // a byte-buffer handle given to another module's close
+            return if rng.chance(1, 2) { dist.hit("valid-handle:fs.close"); BOp::FsClose(h) } else { dist.hit("valid-handle:net.close"); BOp::NetClose(h) };
+        }
         if rng.chance(1, 5) {
             // the rest of the API: clone / equals / strings / find / reverse / swap
             let other = *rng.pick(&live);
@@ -331,7 +348,9 @@ fn gen_bop(rng: &mut Rng, r: &RefB, f32ok: bool, dist: &mut Dist) -> BOp {
     if live.is_empty() || k <= 4 {
         let h = bad_h(rng, dist);
         let (w, sg, be) = pick_acc(rng);
-        return match rng.below(12) {
+        return match rng.below(14) {
+            12 => BOp::FsClose(h),
+            13 => BOp::NetClose(h),
             6 => BOp::Clone(h),
             7 => { let g = live.first().cloned().unwrap_or(0); if rng.chance(1, 2) { BOp::Equals(h, g) } else { BOp::Equals(g, h) } }
             8 => BOp::Decode(h, 0, rng.range_i64(0, 1)),
@@ -447,6 +466,50 @@ pub fn limits(max_alloc: i64, dist: &mut Dist) {
     }
 }
 
+/// Resources of different kinds in one table: an operation of one module applied to a handle of another
+/// kind must be refused (or be the documented no-op) and must leave that resource alive.  Oracle only.
+#[cfg(vbxq_aelys_lang_verif)]
+pub fn crossres(dist: &mut Dist) {
+    let mut vm = vmrun::new_vm_trusted(64 << 20);
+    let (c, _, d) = vmrun::input(&mut vm, "needs std.bytes\nneeds std.fs as fsys\nneeds std.net as netw\nneeds std.time as tm\n0", 1);
+    if c != OK_VAL { println!("!HARNESS\tcrossres prelude failed: {} {}", c, d); return; }
+    // expectation: 'o' ok (any value), 'e' error, '=' ok with exactly this int, 'a' any
+    let steps: Vec<(&str, char, i64)> = vec![
+        ("tm.timer()", '=', 0),
+        ("bytes.alloc(4)", '=', 1),
+        ("bytes.write_u8(1, 0, 7)", 'o', 0),
+        ("bytes.free(0)", 'e', 0),                 // a timer is not a byte buffer ...
+        ("tm.elapsed_us(0)", 'o', 0),              // ... and must still be a timer afterwards
+        ("fsys.close(0)", 'e', 0),
+        ("tm.elapsed_us(0)", 'o', 0),
+        ("netw.close(0)", 'a', 0),
+        ("tm.elapsed_us(0)", 'o', 0),
+        ("fsys.close(1)", 'e', 0),                 // a byte buffer is not a file ...
+        ("bytes.read_u8(1, 0)", '=', 7),           // ... and must still be there
+        ("netw.close(1)", 'a', 0),
+        ("bytes.read_u8(1, 0)", '=', 7),
+        ("tm.elapsed_us(1)", 'e', 0),
+        ("bytes.size(0)", 'e', 0),
+        ("bytes.read_u8(1, 0)", '=', 7),
+        ("bytes.free(1)", 'o', 0),
+        ("bytes.free(1)", 'e', 0),
+        ("tm.elapsed_us(0)", 'o', 0),
+    ];
+    for (i, (src, want, n)) in steps.iter().enumerate() {
+        let (c, bits, detail) = vmrun::input(&mut vm, src, 1);
+        dist.hit("crossres:steps");
+        if c == E_COMPILE || c == PANIC { println!("!HARNESS\tinput `{}` -> class {}: {}", src, c, detail.replace('\n', " ")); return; }
+        let ok = c == OK_VAL;
+        let bad = match want { 'o' => !ok, 'e' => ok, '=' => !ok || Value::from_raw(bits).as_int() != Some(*n), _ => false };
+        if bad {
+            let what = if *want == 'e' { "wrong-kind-handle-accepted" } else { "resource-destroyed-by-refused-call" };
+            println!("!ORACLE\tbytes-oracle:crossres:{}\t`{}` answered {} ({}), expected {}{}\tstep {} of: {}", what, src, if ok { "ok" } else { "error" }, detail.replace('\t', " "),
+                     want, if *want == '=' { format!(" {}", n) } else { String::new() }, i, steps[..=i].iter().map(|s| s.0).collect::<Vec<_>>().join("; "));
+            return;
+        }
+    }
+}
+
 #[cfg(vbxq_aelys_lang_verif)]
 pub fn main(seed: u64, hist: u64, maxlen: u64, replay: Option<String>, dist: &mut Dist) {
     use aelys_runtime::Resource;
@@ -457,8 +520,8 @@ pub fn main(seed: u64, hist: u64, maxlen: u64, replay: Option<String>, dist: &mu
         let len = fixed.as_ref().map(|f| f.len()).unwrap_or(len);
         let opt = rng.below(4) as u32;
         let f32ok = hidx % 4 == 3;
-        let mut vm = vmrun::new_vm(64 << 20);
-        let (c, _, d) = vmrun::input(&mut vm, "needs std.bytes\n0", opt);
+        let mut vm = vmrun::new_vm_trusted(64 << 20);
+        let (c, _, d) = vmrun::input(&mut vm, "needs std.bytes\nneeds std.fs as fsys\nneeds std.net as netw\n0", opt);
         if c != OK_VAL { println!("!HARNESS\tbytes prelude failed: {} {}", c, d); return; }
         let mut r = RefB::default();
         let mut ops: Vec<BOp> = Vec::new();
